@@ -286,6 +286,9 @@ func (h *harness) hostile(s Step) error {
 	case "call-answer":
 		sentID = h.pickID(0, nil, nil)
 		tq := h.pickID(s.IDK, h.liveAnswers, h.finishedAnswers)
+		if s.Var%7 == 6 {
+			tq = sentID // a call pipelined on its own answer
+		}
 		xf := [][]uint16{nil, {0}, {1}, {0, 0}, {300}}[s.Var%5]
 		desc = fmt.Sprintf("Call(question %d, promisedAnswer %d %v)", sentID, tq, xf)
 		if has(h.liveAnswers, tq) {
